@@ -1184,3 +1184,278 @@ Qed.
 Theorem parse_region_no_chromsizes_open_end : forall s c oa,
   parse_region_string s = Some (c, oa, None) -> parse_region s None = None.
 Proof. intros s c oa H. unfold parse_region, check_region. now rewrite H. Qed.
+
+(** ------------------------------------------------------------ parse_cooler_uri *)
+(** no two adjacent colons anywhere *)
+Fixpoint no_dcolon (s : str) : bool :=
+  match s with
+  | c :: r => match r with
+              | c2 :: _ => negb (is_colon c && is_colon c2) && no_dcolon r
+              | [] => true
+              end
+  | [] => true
+  end.
+
+(** the last character, if any, is not a colon *)
+Fixpoint last_notcolon (s : str) : bool :=
+  match s with
+  | [] => true
+  | c :: r => match r with [] => negb (is_colon c) | _ :: _ => last_notcolon r end
+  end.
+
+Lemma split_dcolon_cons2 : forall c c2 r2,
+  split_dcolon (c :: c2 :: r2) =
+  if is_colon c && is_colon c2 then [] :: split_dcolon r2
+  else match split_dcolon (c2 :: r2) with h :: t => (c :: h) :: t | [] => [[c]] end.
+Proof. reflexivity. Qed.
+
+Lemma split_dcolon_nonempty : forall s, split_dcolon s <> [].
+Proof.
+  intros [|c [|c2 r2]]; try discriminate. rewrite split_dcolon_cons2.
+  destruct (is_colon c && is_colon c2); [discriminate|].
+  destruct (split_dcolon (c2 :: r2)); discriminate.
+Qed.
+
+Lemma split_dcolon_none : forall s, no_dcolon s = true -> split_dcolon s = [s].
+Proof.
+  induction s as [|c s IH]; intros H; [reflexivity|].
+  destruct s as [|c2 r2]; [reflexivity|].
+  cbn [no_dcolon] in H. apply andb_true_iff in H as [H1 H2].
+  cbn [split_dcolon]. destruct (is_colon c && is_colon c2); [discriminate|].
+  cbn [split_dcolon] in IH. now rewrite IH.
+Qed.
+
+Lemma split_dcolon_app : forall f g,
+  no_dcolon f = true -> last_notcolon f = true ->
+  split_dcolon (f ++ c_colon :: c_colon :: g) = f :: split_dcolon g.
+Proof.
+  induction f as [|c f IH]; intros g Hd Hl.
+  - reflexivity.
+  - destruct f as [|c2 f2].
+    + cbn [last_notcolon] in Hl. cbn [app]. rewrite split_dcolon_cons2.
+      assert (is_colon c && is_colon c_colon = false) as -> by (now destruct (is_colon c)).
+      rewrite split_dcolon_cons2. reflexivity.
+    + cbn [no_dcolon] in Hd. apply andb_true_iff in Hd as [H1 H2].
+      cbn [last_notcolon] in Hl.
+      change ((c :: c2 :: f2) ++ c_colon :: c_colon :: g) with (c :: c2 :: (f2 ++ c_colon :: c_colon :: g)).
+      rewrite split_dcolon_cons2. destruct (is_colon c && is_colon c2); [discriminate|].
+      specialize (IH g H2 Hl). cbn [app] in IH. now rewrite IH.
+Qed.
+
+Definition norm_group (g : str) : str :=
+  match g with
+  | c :: _ => if is_slash c then g else c_slash :: g
+  | [] => [c_slash]
+  end.
+
+(** no separator: the whole string is the file, the group is "/" *)
+Theorem uri_plain : forall f, no_dcolon f = true -> parse_cooler_uri f = Some (f, [c_slash]).
+Proof. intros f H. unfold parse_cooler_uri. now rewrite split_dcolon_none. Qed.
+
+(** one separator: split there; the group gets a leading slash unless it has one *)
+Theorem uri_split : forall f g,
+  no_dcolon f = true -> last_notcolon f = true -> no_dcolon g = true ->
+  parse_cooler_uri (f ++ c_colon :: c_colon :: g) = Some (f, norm_group g).
+Proof.
+  intros f g Hf Hl Hg. unfold parse_cooler_uri.
+  rewrite split_dcolon_app, split_dcolon_none by assumption.
+  unfold norm_group. destruct g; reflexivity.
+Qed.
+
+(** the leading slash may be written or not: f::g and f::/g give the same pair (f, /g) *)
+Theorem uri_slash_invariant : forall f g,
+  no_dcolon f = true -> last_notcolon f = true -> no_dcolon g = true ->
+  match g with c :: _ => is_slash c = false | [] => True end ->
+  parse_cooler_uri (f ++ c_colon :: c_colon :: g) = Some (f, c_slash :: g) /\
+  parse_cooler_uri (f ++ c_colon :: c_colon :: c_slash :: g) = Some (f, c_slash :: g).
+Proof.
+  intros f g Hf Hl Hg Hs. split.
+  - rewrite uri_split by assumption. unfold norm_group. destruct g; [reflexivity|now rewrite Hs].
+  - rewrite uri_split; try assumption; [reflexivity|].
+    destruct g as [|x g']; [reflexivity|]. exact Hg.
+Qed.
+
+(** two separators are refused *)
+Theorem uri_two_separators : forall a b c,
+  no_dcolon a = true -> last_notcolon a = true -> no_dcolon b = true -> last_notcolon b = true ->
+  parse_cooler_uri (a ++ c_colon :: c_colon :: b ++ c_colon :: c_colon :: c) = None.
+Proof.
+  intros a b c Ha La Hb Lb. unfold parse_cooler_uri.
+  rewrite split_dcolon_app by assumption. rewrite split_dcolon_app by assumption.
+  pose proof (split_dcolon_nonempty c). destruct (split_dcolon c); [congruence|reflexivity].
+Qed.
+
+(** the result never depends on more than the number of parts *)
+Theorem uri_result_shape : forall s f g, parse_cooler_uri s = Some (f, g) ->
+  exists c g', g = c :: g' /\ is_slash c = true.
+Proof.
+  intros s f g. unfold parse_cooler_uri.
+  destruct (split_dcolon s) as [|p0 [|p1 [|p2 r]]]; try discriminate; intros H; inversion H; subst.
+  - exists c_slash, []. split; reflexivity.
+  - destruct p1 as [|x p1'].
+    + exists c_slash, []. split; reflexivity.
+    + destruct (is_slash x) eqn:E; [exists x, p1'; auto|exists c_slash, (x :: p1'); split; reflexivity].
+Qed.
+
+(** ------------------------------------------------------------ whatever is accepted is well-formed (all strings) *)
+Lemma take_while_forallb : forall {A} (p : A -> bool) l, forallb p (take_while p l) = true.
+Proof. induction l as [|x l IH]; simpl; [reflexivity|]. destruct (p x) eqn:E; simpl; [now rewrite E|reflexivity]. Qed.
+
+Lemma forallb_drop_while : forall {A} (p q : A -> bool) l, forallb q l = true -> forallb q (drop_while p l) = true.
+Proof.
+  induction l as [|x l IH]; simpl; intros H; [reflexivity|].
+  apply andb_true_iff in H as [Hx H]. destruct (p x); [auto|]. simpl. now rewrite Hx, H.
+Qed.
+
+Lemma forallb_rev : forall {A} (q : A -> bool) l, forallb q l = true -> forallb q (rev l) = true.
+Proof. intros A q l. rewrite !forallb_forall. intros H x Hx. apply H. now apply in_rev. Qed.
+
+Lemma parse_fraction_nonneg : forall value num k, parse_fraction value = Some (num, k) -> 0 <= num /\ 0 <= k.
+Proof.
+  intros value num k. unfold parse_fraction.
+  pose proof (digits_val_nonneg _ (take_while_forallb is_digit value)) as H1.
+  destruct (drop_while is_digit value) as [|d r].
+  - destruct (is_nil (take_while is_digit value)); [discriminate|]. intros E; inversion E; lia.
+  - destruct (is_dot d); [|discriminate].
+    pose proof (digits_val_nonneg _ (take_while_forallb is_digit r)) as H2.
+    destruct (drop_while is_digit r); [|discriminate].
+    destruct (is_nil (take_while is_digit value) && is_nil (take_while is_digit r)); [discriminate|].
+    intros E; inversion E; subst. unfold zlen.
+    assert (0 < 10 ^ Z.of_nat (length (take_while is_digit r))) by (apply Z.pow_pos_nonneg; lia).
+    split; [nia|lia].
+Qed.
+
+(** parse_humanized never returns a negative number, on any text *)
+Theorem parse_humanized_nonneg : forall s v, parse_humanized s = Some v -> 0 <= v.
+Proof.
+  intros s v. unfold parse_humanized.
+  set (r := drop_while (fun c => negb (is_numch c)) (remove_commas s)).
+  destruct (is_nil (take_while is_numch r)); [discriminate|].
+  destruct (existsb is_numch (drop_while is_numch r)); [discriminate|].
+  destruct (is_nil (drop_while is_numch r)).
+  - unfold parse_int. destruct (is_nil (take_while is_numch r)); [discriminate|].
+    destruct (forallb is_digit (take_while is_numch r)) eqn:E; [|discriminate].
+    intros H; inversion H; subst. now apply digits_val_nonneg.
+  - destruct (parse_fraction (take_while is_numch r)) as [[num k]|] eqn:F; [|discriminate].
+    destruct (unit_mult (strip (map to_upper (drop_while is_numch r)))) as [m|] eqn:U; [|discriminate].
+    intros H; inversion H; subst. apply parse_fraction_nonneg in F as [F1 F2].
+    assert (0 < m) by (apply unit_mult_spec in U; lia).
+    assert (0 < 10 ^ k) by (apply Z.pow_pos_nonneg; lia).
+    apply Z.div_pos; [nia|assumption].
+Qed.
+
+Lemma expect_sound : forall toks a ob, expect toks = Some (a, ob) ->
+  0 <= a /\ forall b, ob = Some b -> a <= b.
+Proof.
+  intros toks a ob. unfold expect.
+  destruct toks as [|[ty1 t1] rest1]; [discriminate|].
+  destruct ty1; try discriminate.
+  destruct (parse_humanized t1) as [a0|] eqn:P1; [|discriminate].
+  apply parse_humanized_nonneg in P1.
+  destruct rest1 as [|[ty2 t2] rest2]; [discriminate|].
+  destruct ty2; try discriminate.
+  destruct rest2 as [|[ty3 t3] rest3].
+  - intros H; inversion H; subst. split; [assumption|discriminate].
+  - destruct ty3; try discriminate.
+    destruct (parse_humanized t3) as [b0|]; [|discriminate].
+    destruct (b0 <? a0) eqn:L; [discriminate|].
+    intros H; inversion H; subst. split; [assumption|]. intros b Hb. inversion Hb; subst. lia.
+Qed.
+
+Lemma drop_while_snoc_stop : forall (p : ascii -> bool) a h, p h = false ->
+  drop_while p (a ++ [h]) = drop_while p a ++ [h].
+Proof.
+  induction a as [|x a IH]; simpl; intros h H; [now rewrite H|].
+  destruct (p x); [now apply IH|reflexivity].
+Qed.
+
+Lemma strip_ends : forall s, stops is_blank (strip s) /\ stops is_blank (rev (strip s)).
+Proof.
+  intros s. unfold strip, rstrip, lstrip. rewrite rev_involutive.
+  split.
+  - destruct (drop_while is_blank s) as [|h l] eqn:E; [exact I|].
+    pose proof (drop_while_head _ _ _ _ E) as Hh.
+    change (rev (h :: l)) with (rev l ++ [h]).
+    rewrite drop_while_snoc_stop by assumption. rewrite rev_app_distr. exact Hh.
+  - destruct (drop_while is_blank (rev (drop_while is_blank s))) as [|h l] eqn:E; [exact I|].
+    exact (drop_while_head _ _ _ _ E).
+Qed.
+
+Lemma strip_forallb : forall (q : ascii -> bool) s, forallb q s = true -> forallb q (strip s) = true.
+Proof.
+  intros q s H. unfold strip, rstrip, lstrip.
+  apply forallb_rev, forallb_drop_while, forallb_rev, forallb_drop_while, H.
+Qed.
+
+(** EVERY string that parse_region_string accepts yields a non-empty colon-free name without blanks
+    at its ends, and either no coordinates or 0 <= start (<= end) *)
+Theorem parse_region_string_sound : forall s c oa ob,
+  parse_region_string s = Some (c, oa, ob) ->
+  c <> [] /\ forallb notcolon c = true /\ stops is_blank c /\ stops is_blank (rev c) /\
+  ((oa = None /\ ob = None) \/
+   exists a, oa = Some a /\ 0 <= a /\ forall b, ob = Some b -> a <= b).
+Proof.
+  intros s c oa ob. unfold parse_region_string.
+  destruct (split_colon_hd s) as [t ->].
+  destruct (is_nil (strip (take_while notcolon s))) eqn:N; [discriminate|].
+  pose proof (strip_ends (take_while notcolon s)) as [E1 E2].
+  pose proof (strip_forallb notcolon _ (take_while_forallb notcolon s)) as E3.
+  destruct t as [|p1 t'].
+  - intros H; inversion H; subst. repeat split; try assumption; [|now left].
+    intros X. now rewrite X in N.
+  - destruct (expect (tokenize p1)) as [[a ob']|] eqn:X; [|discriminate].
+    intros H; inversion H; subst. apply expect_sound in X as [X1 X2].
+    repeat split; try assumption; [intros Y; now rewrite Y in N|].
+    right. exists a. auto.
+Qed.
+
+
+(** two "::" are refused wherever they are: for ALL a, b, c (no side condition) *)
+Lemma split_dcolon_length_cons : forall n s c, (length s <= n)%nat ->
+  (length (split_dcolon s) <= length (split_dcolon (c :: s)))%nat.
+Proof.
+  induction n as [|n IH]; intros s c Hl.
+  - destruct s; [simpl; lia|simpl in Hl; lia].
+  - destruct s as [|c1 s1]; [simpl; lia|].
+    rewrite (split_dcolon_cons2 c c1 s1).
+    destruct (is_colon c && is_colon c1) eqn:E.
+    + destruct s1 as [|c2 s2]; [simpl; lia|].
+      rewrite (split_dcolon_cons2 c1 c2 s2).
+      destruct (is_colon c1 && is_colon c2) eqn:E2.
+      * pose proof (IH s2 c2 ltac:(simpl in Hl; lia)). cbn [length]. lia.
+      * destruct (split_dcolon (c2 :: s2)) eqn:S; cbn [length]; lia.
+    + destruct (split_dcolon (c1 :: s1)) eqn:S; cbn [length]; lia.
+Qed.
+
+Lemma split_dcolon_length_sep : forall n a r, (length a <= n)%nat ->
+  (S (length (split_dcolon r)) <= length (split_dcolon (a ++ c_colon :: c_colon :: r)))%nat.
+Proof.
+  induction n as [|n IH]; intros a r Hl.
+  - destruct a; [|simpl in Hl; lia]. simpl app. rewrite split_dcolon_cons2. simpl. lia.
+  - destruct a as [|c a']; [simpl app; rewrite split_dcolon_cons2; simpl; lia|].
+    destruct a' as [|c1 a''].
+    + simpl app. rewrite (split_dcolon_cons2 c).
+      destruct (is_colon c && is_colon c_colon).
+      * pose proof (split_dcolon_length_cons _ r c_colon (le_n _)). cbn [length]. lia.
+      * pose proof (IH [] r ltac:(simpl; lia)) as H. simpl app in H.
+        destruct (split_dcolon (c_colon :: c_colon :: r)); cbn [length] in *; lia.
+    + change ((c :: c1 :: a'') ++ c_colon :: c_colon :: r) with (c :: c1 :: (a'' ++ c_colon :: c_colon :: r)).
+      rewrite (split_dcolon_cons2 c c1).
+      destruct (is_colon c && is_colon c1).
+      * pose proof (IH a'' r ltac:(simpl in Hl; lia)). cbn [length]. lia.
+      * pose proof (IH (c1 :: a'') r ltac:(simpl in Hl; simpl; lia)) as H.
+        change ((c1 :: a'') ++ c_colon :: c_colon :: r) with (c1 :: a'' ++ c_colon :: c_colon :: r) in H.
+        destruct (split_dcolon (c1 :: a'' ++ c_colon :: c_colon :: r)); cbn [length] in *; lia.
+Qed.
+
+Theorem uri_two_separators_any : forall a b c,
+  parse_cooler_uri (a ++ c_colon :: c_colon :: b ++ c_colon :: c_colon :: c) = None.
+Proof.
+  intros a b c. unfold parse_cooler_uri.
+  pose proof (split_dcolon_length_sep _ a (b ++ c_colon :: c_colon :: c) (le_n _)) as H1.
+  pose proof (split_dcolon_length_sep _ b c (le_n _)) as H2.
+  pose proof (split_dcolon_nonempty c) as H3.
+  destruct (split_dcolon c); [congruence|]. cbn [length] in H2.
+  destruct (split_dcolon (a ++ c_colon :: c_colon :: b ++ c_colon :: c_colon :: c)) as [|p0 [|p1 [|p2 r]]];
+    cbn [length] in *; try lia. reflexivity.
+Qed.
